@@ -33,7 +33,13 @@ def run(c):
         t3 = c.rundir / "exh.ndjson"
         # variants: 1 = nodes 1,2 subscribed beforehand, +2 = node 2 missing from node 0's partial view, +4 = reordering links, +8 = subscribe_local_messages
         c.drive(drv, ["net", "exhaustive", c.pick(3, 4), c.pick("3", "3,5,15"), t3])
-        traces = [t1, t2, t3]
+        # one TLC start-up for the three sources in the quick tier
+        if c.quick:
+            allt = c.rundir / "all.ndjson"
+            allt.write_text("".join(open(t).read() for t in (t1, t2, t3)))
+            traces = [allt]
+        else:
+            traces = [t1, t2, t3]
     distinct = set()
     for t in traces:
         ok, total = c.tlc_trace("TraceFloodNet", t, timeout=2400)
